@@ -296,6 +296,39 @@ func ruleDeadlineDirection(c *Ctx, r *R) {
 	}
 }
 
+// tickerGen identifies the generation field of JitterTicker and the captured local it is compared with in the
+// AfterFunc callback, whatever they are called.
+func tickerGen(c *Ctx) (genField string, captured *ssa.Alloc, callback *ssa.Function) {
+	sch := c.fn("xtime.JitterTicker.schedule")
+	if sch == nil {
+		return "", nil, nil
+	}
+	for _, clo := range sch.AnonFuncs {
+		instrs(clo, func(b *ssa.BasicBlock, i int, in ssa.Instruction) {
+			bin, ok := in.(*ssa.BinOp)
+			if !ok || (bin.Op != token.EQL && bin.Op != token.NEQ) {
+				return
+			}
+			for _, pair := range [][2]ssa.Value{{bin.X, bin.Y}, {bin.Y, bin.X}} {
+				ld, ok := pair[0].(*ssa.UnOp)
+				if !ok {
+					continue
+				}
+				fa, ok := ld.X.(*ssa.FieldAddr)
+				if !ok || !isNamedType(fa.X.Type(), "xtime", "JitterTicker") || !isIntType(ld.Type()) {
+					continue
+				}
+				if cell := loadCell(pair[1]); cell != nil && cell.Parent() == sch {
+					genField = fieldName(fa.X.Type(), fa.Field)
+					captured = cell
+					callback = clo
+				}
+			}
+		})
+	}
+	return
+}
+
 func ruleTickGate(c *Ctx, r *R) {
 	sch := c.fn("xtime.JitterTicker.schedule")
 	stop := c.fn("xtime.JitterTicker.Stop")
@@ -303,15 +336,29 @@ func ruleTickGate(c *Ctx, r *R) {
 		r.undecided("xtime.JitterTicker|missing", token.NoPos, "anchor not found")
 		return
 	}
-	// sends on t.c anywhere in xtime
+	genF, capCell, _ := tickerGen(c)
+	if genF == "" {
+		r.violated("xtime|generation", sch.Pos(), "the timer callback does not compare the ticker's generation with the one captured when the timer was armed: nothing stops a callback that is already running from ticking after Stop/Reset")
+		return
+	}
+	// sends on the tick channel anywhere in xtime
 	n := 0
 	for _, fn := range c.Funcs {
 		if rootFn(fn).Pkg != c.SSA["xtime"] {
 			continue
 		}
 		for _, op := range chanOpsOf(fn) {
-			for idx, a := range op.arms {
-				if !a.send || !strings.HasSuffix(a.chPath, ".c") {
+			for _, a := range op.arms {
+				if !a.send {
+					continue
+				}
+				// the ticker's own channel field
+				ld, ok := a.ch.(*ssa.UnOp)
+				if !ok {
+					continue
+				}
+				fa, ok := ld.X.(*ssa.FieldAddr)
+				if !ok || !isNamedType(fa.X.Type(), "xtime", "JitterTicker") {
 					continue
 				}
 				n++
@@ -319,13 +366,15 @@ func ruleTickGate(c *Ctx, r *R) {
 				gated := false
 				for _, g := range guardsOf(op.in.Block()) {
 					if cf, ok := g.asCmp(); ok && cf.op == token.EQL {
-						xs, ys := path(cf.x), path(cf.y)
-						if (strings.HasSuffix(xs, ".gen") && ys == "gen") || (strings.HasSuffix(ys, ".gen") && xs == "gen") {
-							gated = true
+						for _, pair := range [][2]ssa.Value{{cf.x, cf.y}, {cf.y, cf.x}} {
+							if l2, ok := pair[0].(*ssa.UnOp); ok {
+								if f2, ok := l2.X.(*ssa.FieldAddr); ok && fieldName(f2.X.Type(), f2.Field) == genF && loadCell(pair[1]) == capCell {
+									gated = true
+								}
+							}
 						}
 					}
 				}
-				_ = idx
 				r.ok(gated, key+"|gen-gate", posOf(op.in), "a tick may be sent only under t.gen == gen (the generation captured when this timer was armed); otherwise a callback that was already running delivers a tick after Stop/Reset")
 				r.ok(!op.blocking, key+"|non-blocking", posOf(op.in), "the tick send must be non-blocking (it runs with the lock held)")
 				held := locksIn(fn, entryLocks(c, fn, 0))
@@ -337,11 +386,10 @@ func ruleTickGate(c *Ctx, r *R) {
 	if n == 0 {
 		r.violated("xtime|tick-send", sch.Pos(), "no tick is ever sent")
 	}
-	// gen captured in schedule after the bump: local gen := t.gen following t.gen++
 	bump := func(fn *ssa.Function) bool {
 		res := false
 		instrs(fn, func(b *ssa.BasicBlock, i int, in ssa.Instruction) {
-			if isFieldIncDec(in, "gen", +1) && b == fn.Blocks[0] || isFieldIncDec(in, "gen", +1) && len(guardsOf(b)) == 0 {
+			if isFieldIncDec(in, genF, +1) && (b == fn.Blocks[0] || len(guardsOf(b)) == 0) {
 				res = true
 			}
 		})
@@ -358,21 +406,73 @@ func ruleTickGate(c *Ctx, r *R) {
 		}
 	})
 	r.ok(stops, "xtime.JitterTicker.Stop|stops-timer", stop.Pos(), "Stop must stop the pending timer")
-	// the captured gen is read after the bump
+	// the captured generation is read after the bump
 	captured := false
-	instrs(sch, func(b *ssa.BasicBlock, i int, in ssa.Instruction) {
-		if st, ok := in.(*ssa.Store); ok {
-			if al, ok := st.Addr.(*ssa.Alloc); ok && al.Comment == "gen" && strings.HasSuffix(path(st.Val), ".gen") {
-				// preceded by the bump in the same block
-				for _, x := range b.Instrs[:i] {
-					if isFieldIncDec(x, "gen", +1) {
+	for _, st := range storesTo(capCell) {
+		if st.Parent() != sch {
+			continue
+		}
+		if ld, ok := st.Val.(*ssa.UnOp); ok {
+			if fa, ok := ld.X.(*ssa.FieldAddr); ok && fieldName(fa.X.Type(), fa.Field) == genF {
+				instrs(sch, func(b *ssa.BasicBlock, i int, in ssa.Instruction) {
+					if isFieldIncDec(in, genF, +1) && (b.Dominates(ld.Block()) && (b != ld.Block() || i < idxIn(ld))) {
 						captured = true
+					}
+				})
+			}
+		}
+	}
+	r.ok(captured, "xtime.JitterTicker.schedule|captures-after-bump", sch.Pos(), "the generation handed to the callback must be read after the bump")
+}
+
+// dependsOn: does v (through arithmetic, conversions, phis, locals and tiny helpers) depend on a load of receiver field `field`?
+func dependsOnField(v ssa.Value, field string, depth int) bool {
+	if depth > 8 {
+		return false
+	}
+	switch x := v.(type) {
+	case *ssa.UnOp:
+		if x.Op == token.MUL {
+			if fa, ok := x.X.(*ssa.FieldAddr); ok && fieldName(fa.X.Type(), fa.Field) == field {
+				return true
+			}
+			if cell := cellOf(x.X); cell != nil {
+				for _, st := range storesTo(cell) {
+					if dependsOnField(st.Val, field, depth+1) {
+						return true
 					}
 				}
 			}
+			return false
 		}
-	})
-	r.ok(captured, "xtime.JitterTicker.schedule|captures-after-bump", sch.Pos(), "the generation handed to the callback must be read after the bump")
+		return dependsOnField(x.X, field, depth+1)
+	case *ssa.BinOp:
+		return dependsOnField(x.X, field, depth+1) || dependsOnField(x.Y, field, depth+1)
+	case *ssa.Convert:
+		return dependsOnField(x.X, field, depth+1)
+	case *ssa.ChangeType:
+		return dependsOnField(x.X, field, depth+1)
+	case *ssa.Phi:
+		for _, e := range x.Edges {
+			if dependsOnField(e, field, depth+1) {
+				return true
+			}
+		}
+	case *ssa.Call:
+		if cal := staticCallee(&x.Call); cal != nil && cal.Blocks != nil {
+			for _, rv := range returnedBy(cal, 0) {
+				if dependsOnField(rv, field, depth+1) {
+					return true
+				}
+			}
+		}
+		for _, a := range x.Call.Args {
+			if dependsOnField(a, field, depth+1) {
+				return true
+			}
+		}
+	}
+	return false
 }
 
 func ruleValidationSiblings(c *Ctx, r *R) {
@@ -383,75 +483,96 @@ func ruleValidationSiblings(c *Ctx, r *R) {
 			r.undecided(name+"|missing", token.NoPos, "anchor not found")
 			continue
 		}
+		// role names by position from the end of the parameter list: ..., d, jitter
+		role := func(v ssa.Value) string {
+			np := len(fn.Params)
+			for i, p := range fn.Params {
+				if v == ssa.Value(p) {
+					switch np - i {
+					case 1:
+						return "jitter"
+					case 2:
+						return "d"
+					}
+				}
+			}
+			return path(v)
+		}
 		var conds []string
-		var panicGuards []*ssa.BasicBlock
-		for _, b := range fn.Blocks {
-			if len(b.Instrs) == 0 {
+		var sites []ssa.Instruction
+		for _, di := range deepInstrs(fn, 2) {
+			b := di.in.Block()
+			if _, ok := di.in.(*ssa.Panic); !ok {
 				continue
 			}
-			if _, ok := b.Instrs[len(b.Instrs)-1].(*ssa.Panic); !ok {
-				continue
-			}
-			for _, g := range guardsOf(b) {
+			for _, g := range append(guardsOf(b), guardsOfSelf(b)...) {
 				if g.blk.Succs[0] != b && g.blk.Succs[1] != b {
 					continue
 				}
 				if cf, ok := g.asCmp(); ok {
-					conds = append(conds, path(cf.x)+cf.op.String()+path(cf.y))
-					panicGuards = append(panicGuards, g.blk)
+					conds = append(conds, role(argOf(cf.x, di.calls))+cf.op.String()+role(argOf(cf.y, di.calls)))
+					if len(di.calls) > 0 {
+						sites = append(sites, di.site)
+					} else {
+						sites = append(sites, g.blk.Instrs[len(g.blk.Instrs)-1])
+					}
 				}
 			}
 		}
-		sort.Strings(conds)
-		sets[name] = conds
-		// every store of d / jitter is dominated by all guard blocks
+		// de-duplicate (a switch lists each guard once, but deep walks may revisit)
+		seen := map[string]bool{}
+		var uniq []string
+		for _, cnd := range conds {
+			if !seen[cnd] {
+				seen[cnd] = true
+				uniq = append(uniq, cnd)
+			}
+		}
+		sort.Strings(uniq)
+		sets[name] = uniq
 		okDom := true
 		instrs(fn, func(b *ssa.BasicBlock, i int, in ssa.Instruction) {
 			if st, ok := in.(*ssa.Store); ok {
 				if _, f, ok := storedField(st.Addr); ok && (f == "d" || f == "jitter") {
-					for _, gb := range panicGuards {
-						if !gb.Dominates(b) {
+					for _, site := range sites {
+						sb := site.Block()
+						if !(sb.Dominates(b) && (sb != b || idxIn(site) < i)) {
 							okDom = false
 						}
 					}
 				}
 			}
 		})
-		r.ok(okDom && len(conds) >= 2, name+"|validate-first", fn.Pos(), "the panic guards over (d, jitter) must dominate every store of those values (a failing call leaves the ticker unchanged)")
+		r.ok(okDom && len(uniq) >= 2, name+"|validate-first", fn.Pos(), "the panic guards over (d, jitter) must dominate every store of those values (a failing call leaves the ticker unchanged)")
 	}
 	a, b := sets["xtime.NewJitterTicker"], sets["xtime.JitterTicker.Reset"]
 	r.ok(strings.Join(a, ";") == strings.Join(b, ";") && len(a) > 0, "xtime|sibling-guards", token.NoPos, "NewJitterTicker panics under {"+strings.Join(a, "; ")+"} but Reset under {"+strings.Join(b, "; ")+"}: the two validation blocks must agree")
-	// documented conditions: d <= 0 and jitter >= d
 	want := "d<=0;jitter>=d"
 	r.ok(strings.Join(a, ";") == want, "xtime.NewJitterTicker|documented-guards", token.NoPos, "documented preconditions are d > 0 and jitter < d; found panic guards {"+strings.Join(a, "; ")+"}")
-	// formula in schedule: next = t.d (+ Int63n(jitter*2) - jitter)
+	// formula in schedule (possibly in a helper): next = t.d (+ Int63n(jitter*2) - jitter)
 	sch := c.fn("xtime.JitterTicker.schedule")
 	if sch == nil {
 		return
 	}
 	okFormula := false
-	instrs(sch, func(b *ssa.BasicBlock, i int, in ssa.Instruction) {
-		bin, ok := in.(*ssa.BinOp)
-		if !ok || bin.Op != token.SUB || !strings.HasSuffix(path(bin.Y), ".jitter") {
-			return
-		}
-		// X = d + Duration(Int63n(int64(jitter*2)))   (in either association)
-		xs := path(bin.X)
-		if strings.Contains(xs, "Int63n") && strings.Contains(xs, ".jitter*2") {
-			okFormula = true
-		}
-	})
 	usesD := false
-	instrs(sch, func(b *ssa.BasicBlock, i int, in ssa.Instruction) {
-		if call, ok := in.(*ssa.Call); ok {
-			if cal := call.Call.StaticCallee(); cal != nil && cal.Name() == "AfterFunc" {
-				ps := path(call.Call.Args[0])
-				if strings.Contains(ps, "next") || strings.Contains(ps, ".d") {
+	for _, di := range deepInstrs(sch, 2) {
+		switch x := di.in.(type) {
+		case *ssa.BinOp:
+			if x.Op == token.SUB && strings.HasSuffix(path(x.Y), ".jitter") {
+				xs := path(x.X)
+				if strings.Contains(xs, "Int63n") && strings.Contains(xs, ".jitter*2") {
+					okFormula = true
+				}
+			}
+		case *ssa.Call:
+			if cal := x.Call.StaticCallee(); cal != nil && cal.Name() == "AfterFunc" {
+				if dependsOnField(x.Call.Args[0], "d", 0) && dependsOnField(x.Call.Args[0], "jitter", 0) {
 					usesD = true
 				}
 			}
 		}
-	})
+	}
 	r.ok(okFormula && usesD, "xtime.JitterTicker.schedule|interval-formula", sch.Pos(), "the next interval must be d + rand[0, 2·jitter) − jitter (so it lies in [d − jitter, d + jitter))")
 }
 
